@@ -65,13 +65,16 @@ let show_event (e : event) =
 
 let code z = let c = int_of_z z in if c = -9999 then "FAULT" else if c = -9998 then "FUEL" else string_of_int c
 
+(* --raw: mpt_parse_option as patched by docs/C09_option_name_blank.diff (see [allow] in coq/C08/ParseModel.v) *)
+let raw_variant = Array.exists (fun a -> a = "--raw") Sys.argv
+
 let model_line id fmt acc target input =
   let fs = cstr fmt and ac = cstr acc in
   let (f, ret) = parse_format fs in
   let ftok = Printf.sprintf "F%d:%s" (int_of_z ret)
       (String.concat "." (List.map (fun z -> string_of_int (int_of_z z))
          [f.sstart; f.send; f.ostart; f.assign; f.oend; f.esc0; f.esc1; f.esc2; f.com0; f.com1; f.com2; f.com3])) in
-  let (ar, al) = parse_accept allow_init ac in
+  let (ar, al) = parse_accept (allow_variant allow_init raw_variant) ac in
   let atok = Printf.sprintf "A%d:%d.%d" (int_of_z ar) (int_of_z al.asect) (int_of_z al.aopt) in
   let inp = parse_input input in
   let tgt = parse_forest target in
